@@ -108,7 +108,100 @@ def run(ctx, rep):
             want = f"ok {kstr(gk)}:{gid}"
             if o != want:
                 rep.disagree(f"{kind} best: model '{o}' vs code '{want}'", {"line": line, **case})
+    query_correspondence(ctx, rep)
     predictor_oracle(ctx, rep)
+
+
+def query_correspondence(ctx, rep):
+    """`Island.get_best_individual` on populations in EVERY state of the flags (never evaluated, partly evaluated after a
+    migration, replaced at a later age) against `BestQuery.islandBest`; oracle: the reported individual is a member, is marked
+    evaluated and carries f(genome), which is minimal among the non-NaN values of all genomes"""
+    from bingo.chromosomes.multiple_values import MultipleValueChromosome
+    from bingo.evaluation.evaluation import Evaluation
+    from bingo.evaluation.fitness_function import FitnessFunction
+    from bingo.evolutionary_optimizers.island import Island
+    rng = ctx.rng
+
+    class ModFitness(FitnessFunction):
+        def __init__(self, nanmod):
+            super().__init__()
+            self.nanmod = nanmod
+
+        def value(self, g):
+            if self.nanmod and g % self.nanmod == 3:
+                return float("nan")
+            return float((37 * g) % 23)
+
+        def __call__(self, individual):
+            self.eval_count += 1
+            return self.value(int(individual.values[0]))
+
+    def show(c):
+        f = c._fitness
+        fs = "-" if f is None else ("nan" if math.isnan(f) else str(int(f)))
+        return f"{int(c.values[0])}:{fs}:{1 if c._fit_set else 0}"
+    template, _ = simple_island(0)
+    lines, meta = [], []
+    for t in range(ctx.n(600, 6000)):
+        nanmod = rng.choice([0, 7, 7, 5])
+        redundant = rng.random() < 0.2
+        age = rng.choice([0, 0, 1, 3, 12])
+        fit = ModFitness(nanmod)
+        island = Island(template._ea, template._generator, 0)
+        island._ea = type(template._ea).__new__(type(template._ea))
+        island._ea.__dict__.update(template._ea.__dict__)
+        island._ea.evaluation = Evaluation(fit, redundant=redundant)
+        n = rng.randrange(1, 8)
+        state = rng.choice(["fresh", "all-evaluated", "mixed", "mixed", "stale-unflagged"])
+        pop = []
+        for _ in range(n):
+            g = rng.randrange(40)
+            c = MultipleValueChromosome([g])
+            mode = {"fresh": "none", "all-evaluated": "ev"}.get(state) or rng.choice(["none", "ev", "stale"])
+            if state == "stale-unflagged":
+                mode = rng.choice(["stale", "ev"])
+            if mode == "ev":
+                c.fitness = fit.value(g)
+            elif mode == "stale":
+                c.fitness = float(rng.randrange(23))
+                c.fit_set = False
+            pop.append(c)
+        island.population = pop
+        island.generational_age = age
+        before = [show(c) for c in pop]
+        case = {"age": age, "redundant": redundant, "nanmod": nanmod, "population": before}
+        rep.case(("query", age, redundant, nanmod, tuple(before)), n > 1)
+        rep.count("query_state", state)
+        rep.count("query_age", age)
+        try:
+            best = island.get_best_individual()
+            got = show(best)
+        except TypeError as exc:
+            best, got = None, "raise"
+            rep.violate(f"Island.get_best_individual raised {type(exc).__name__}: {exc} on a non-empty population (age {age}, members {before})",
+                        "C15:query-raised", case)
+        after = [show(c) for c in island.population]
+        if best is not None:
+            g = int(best.values[0])
+            vals = [fit.value(int(c.values[0])) for c in island.population]
+            finite = [v for v in vals if not math.isnan(v)]
+            w = fit.value(g)
+            if not any(best is c for c in island.population):
+                rep.violate("Island.get_best_individual returned a non-member", "C15:not-member", case)
+            elif not best.fit_set or best._fitness is None or not (best._fitness == w or (math.isnan(best._fitness) and math.isnan(w))):
+                rep.violate(f"the reported best individual (genome {g}) carries fitness {best._fitness} (marked evaluated: {best.fit_set}); "
+                            f"the fitness function's value for it is {w}", "C15:not-its-true-fitness", case)
+            elif finite and (math.isnan(w) or w != min(finite)):
+                rep.violate(f"the reported best individual has fitness {w}; the minimum over the population is {min(finite)}", "C15:not-minimal", case)
+        lines.append(f"bestquery ; {age} ; {int(redundant)} ; {nanmod} ; {' '.join(before)}")
+        meta.append((case, got, after))
+    if ctx.driver_ok and lines:
+        outs = run_driver(lines)
+        rep.corr_cases = getattr(rep, "corr_cases", 0) + len(lines)
+        for line, o, (case, got, after) in zip(lines, outs, meta):
+            want = f"ok {got} ; {' '.join(after)}"
+            if o != want:
+                rep.disagree(f"best-individual query: model '{o}' vs code '{want}'", {"line": line, **case})
 
 
 def predictor_oracle(ctx, rep):
@@ -174,6 +267,28 @@ def predictor_oracle(ctx, rep):
                     if not (entry.fitness == w or abs(entry.fitness - w) <= 1e-12 * max(1, abs(w))):
                         rep.violate(f"predictor island: hall-of-fame entry carries {entry.fitness}, full-data fitness is {w}",
                                     "C15:predicted-fitness-in-hof", {"trial": trial, "generation": g, "equation": str(entry)})
+
+            # queries at the SAME generational age with a population change in between (regenerate_population; an archipelago built
+            # from an island that was already queried): the reported best is a member of the CURRENT population(s)
+            def same(a, b):
+                return np.array_equal(a.command_array, b.command_array) and list(a.get_local_optimization_params()) == list(b.get_local_optimization_params())
+
+            def member_check(best, populations, what):
+                rep.count("predictor_membership_checks")
+                if not any(same(best, m) for pop in populations for m in pop):
+                    rep.violate(f"predictor island, {what}: the reported best individual ({best}) is not a member of the current population(s)",
+                                "C15:not-a-member", {"trial": trial, "history": what})
+                    return
+                want = truth(best.copy())
+                if not (best.fitness == want or (math.isnan(best.fitness) and math.isnan(want)) or abs(best.fitness - want) <= 1e-12 * max(1, abs(want))):
+                    rep.violate(f"predictor island, {what}: best individual carries fitness {best.fitness}, full-data fitness is {want}",
+                                "C15:predicted-fitness-reported", {"trial": trial, "history": what})
+            isl.get_best_individual()
+            isl.get_best_fitness()
+            isl.regenerate_population()
+            member_check(isl.get_best_individual(), [isl.population], "query, regenerate_population, query")
+            arch2 = SerialArchipelago(isl, num_islands=2)
+            member_check(arch2.get_best_individual(), [i.population for i in arch2.islands], "archipelago built from a queried island")
 
 
 def replay(ctx, rep, rp):
